@@ -5,6 +5,7 @@ EXTENDS Lease
 KeysQ  == {"al", "tg"}
 KeysT  == {"al", "md", "tg"}
 KeysC  == {"tg"}
+KeysS  == {"sc"}
 ChainC == <<"tg">>
 AuxN == {NoAux}
 ChainQ == <<"al", "tg">>
